@@ -212,7 +212,9 @@ def verify(contract, registry, tier='quick', mutate=None):
     rep = None
     for scale in (1, 8, 40):
         rep = _verify_once(contract, registry, tier, mutate, scale)
-        if rep.get('status') not in ('out_of_subset', 'crash'):
+        # a counter-model on a *tainted* path (an unmodelled construct was met) is the third verdict that unpruned infeasible paths produce
+        tainted_open = any(o.get('tainted') and o.get('result') != 'unsat' for o in rep.get('obligations', []))
+        if rep.get('status') not in ('out_of_subset', 'crash') and not tainted_open:
             break
     if rep is not None and scale > 1:
         rep.setdefault('notes', []).append(f"pruner budget x{scale}")
